@@ -288,8 +288,8 @@ class FlatLine(Spec):
         n = len(self.pat)
         if n >= 2:
             D = Fr(self.t[1] - self.t[0])
-            self.ks = math.floor(Fr(int(kw['suspect_threshold'])) / D)
-            self.kf = math.floor(Fr(int(kw['fail_threshold'])) / D)
+            self.ks = math.floor(Fr(kw['suspect_threshold']) / D)
+            self.kf = math.floor(Fr(kw['fail_threshold']) / D)
 
     def is_missing(self, p):
         return self.pat[p] == 'm'
